@@ -27,7 +27,7 @@ TIERS = {
     # worlds, native value sets per profile, miri worlds, miri sets, valgrind worlds, big-list size
     "values": {
         "quick": dict(worlds=16, sets=15, miri_worlds=4, miri_sets=2, valgrind_worlds=0, valgrind_sets=0, big=100000),
-        "thorough": dict(worlds=216, sets=100, miri_worlds=24, miri_sets=3, valgrind_worlds=24, valgrind_sets=4, big=100000),
+        "thorough": dict(worlds=144, sets=100, miri_worlds=16, miri_sets=3, valgrind_worlds=12, valgrind_sets=4, big=100000),
     },
     "resources": {
         "quick": dict(worlds=8, sets=50, miri_worlds=3, miri_sets=2, valgrind_worlds=0, valgrind_sets=0, big=0),
@@ -292,7 +292,7 @@ def run_pipeline(prop, mode, tier, seed, replay=None):
     t_start = time.time()
     with Lock(mode):
         if replay:
-            idx = generate(mode, replay.get("seed", seed), 1, wdir, replay=replay)
+            idx = generate(mode, seed, 1, wdir, replay=replay)
             P.update(miri_worlds=1 if str(replay.get("platform", "")).startswith("miri") else 0, valgrind_worlds=0)
         else:
             idx = generate(mode, seed, P["worlds"], wdir)
@@ -332,21 +332,24 @@ def run_pipeline(prop, mode, tier, seed, replay=None):
         for n in runnable:
             for prof, bdir, sd in (("debug", dbgdir, seed * 2 + 1), ("release", reldir, seed * 2 + 2)):
                 out = os.path.join(scratch, "%s-%s.json" % (n, prof))
-                cmd = [os.path.join(bdir, n), "--seed", str(sd * 1000003 + int(n[1:])), "--sets", str(P["sets"]), "--world", n, "--out", out] + extra_args
+                run_seed = replay["seed"] if replay and "seed" in replay else sd * 1000003 + int(n[1:])
+                cmd = [os.path.join(bdir, n), "--seed", str(run_seed), "--sets", str(P["sets"]), "--world", n, "--out", out] + extra_args
                 if P["big"] and mode == "values":
                     cmd += ["--big", str(P["big"])]
                 jobs.append((n, "native-x86_64-" + prof, cmd, out, 900, None, None))
         # Miri shard: smallest worlds first (interpretation is ~1000x slower)
         miri_names = sorted(runnable, key=lambda n: worlds[n].get("counts", {}).get("bindings_bytes", 0))
-        if mode == "values":
-            miri_names = miri_names[: P["miri_worlds"]]
-        else:
-            miri_names = miri_names[: P["miri_worlds"]]
+        if mode == "resources":
+            # the hand-written world with every handle position always goes under Miri
+            corp = [n for n in runnable if str(worlds[n].get("origin", "")).startswith("corpus")]
+            miri_names = corp + [n for n in miri_names if n not in corp]
+        miri_names = miri_names[: P["miri_worlds"]]
         menv = cargo_env({"MIRIFLAGS": MIRIFLAGS})
         for n in miri_names:
             out = os.path.join(scratch, "%s-miri.json" % n)
             cmd = ["cargo", "+nightly", "miri", "run", "--offline", "-q", "-p", n, "--target", MIRI_TARGET, "--",
-                   "--seed", str(seed * 1000003 + 7 + int(n[1:])), "--sets", str(P["miri_sets"]), "--max-list", "3", "--world", n, "--out", out] + extra_args
+                   "--seed", str(replay["seed"] if replay and "seed" in replay else seed * 1000003 + 7 + int(n[1:])), "--sets", str(P["miri_sets"]),
+                   "--max-list", "3", "--world", n, "--out", out] + extra_args
             jobs.append((n, "miri-" + MIRI_TARGET, cmd, out, 1500 if tier == "quick" else 3000, menv, wdir))
         vg_names = runnable[: P["valgrind_worlds"]] if shutil.which("valgrind") else []
         for n in vg_names:
